@@ -32,9 +32,11 @@ const CH4: &[char] = &['😀', '𝄞', '\u{10000}', '\u{10ffff}', '🦀'];
 fn rand_char(rng: &mut Rng, small_cp: bool) -> char {
     if small_cp {
         // code points below U+0800 (keeps the char-wise code table tiny: used under Miri)
-        match rng.below(2) {
-            0 => *rng.pick(CH1),
-            _ => *rng.pick(&CH2[..5]),
+        match rng.below(5) {
+            0 | 1 => *rng.pick(CH1),
+            2 | 3 => *rng.pick(&CH2[..5]),
+            // three-byte characters with small code points: the code table stays tiny
+            _ => *rng.pick(&['\u{800}', '\u{e01}', '\u{fff}']),
         }
     } else {
         match rng.below(8) {
@@ -224,7 +226,8 @@ pub fn gen_spec(rng: &mut Rng, o: &GenOpts) -> (Spec, PatClass) {
     let small_cp = o.tiny || !rng.chance(o.big_cp_of_8, 8);
     match class {
         PatClass::Dense => {
-            let n = rng.range(1, if o.tiny { 6 } else { 12 });
+            let hi = if o.tiny { if rng.chance(1, 4) { 20 } else { 6 } } else { 12 };
+            let n = rng.range(1, hi);
             let alpha: &[u8] = if rng.chance(1, 3) { b"abc" } else { b"ab" };
             for _ in 0..n * 3 {
                 if set.len() >= n {
